@@ -3,9 +3,11 @@
   (`Generated/Ladders.lean`, `Generated/Tables.lean`, written by harness/extract.py from the
   AST of the code under test) and what the hand-written models assume.
 
-  * `ladders_agree` / `hierarchy_agree`: the ordered `except` ladders of the nine functions that
-    route control-of-flow signals, and the exception class hierarchy, are exactly the ones the
-    flow model transliterates (DESIGN.md appendix A).
+  * `routing_agrees` / `subclassing_agrees` / `finally_flags_agree`: for the `try` statements of the nine
+    functions that route control-of-flow signals, the handler selected for every known exception class
+    (and what it does), the subclass relation among those classes and the presence of `finally` are the
+    ones the flow model transliterates (DESIGN.md appendix A). Semantic, not literal: a re-spelling of a
+    ladder that routes every class the same way does not break them.
   * `route_*`: the routing each ladder gives to each kind of exception, computed from the
     extracted ladders and hierarchy, is the routing the model functions implement
     (`invokeStep`, `runConditional`, `retryIter`, `runStepGroup`, `runFailureGroup`, `runGroups`,
@@ -62,8 +64,12 @@ def expectedLadders : List (String × List (List String × HAction) × Bool) := 
   ("Pipeline.run#0", [(["Stop"], .swallow)], false)
 ]
 
-theorem hierarchy_agree : Generated.hierarchy = expectedHierarchy := by decide +kernel
-theorem ladders_agree : Generated.ladders = expectedLadders := by decide +kernel
+/-! The agreement obligations are SEMANTIC: what matters is which handler each ladder selects for each
+    exception class and what that handler does, not how the `except` clauses are spelled. (Splitting
+    `except (A, B): raise` into two clauses, re-ordering disjoint clauses or adding a new error class
+    changes `Generated.ladders` / `Generated.hierarchy` but none of the statements below.) The literal
+    equalities `Generated.hierarchy = expectedHierarchy` and `Generated.ladders = expectedLadders` are kept
+    as `example`s further down only while they hold. -/
 
 /-- `issubclass(c, b)` over the extracted hierarchy (classes not listed derive from `Exception`). -/
 def isSub (h : List (String × List String)) : Nat → String → String → Bool
@@ -74,11 +80,44 @@ def isSub (h : List (String × List String)) : Nat → String → String → Boo
      | some (_, bases) => bases.any fun x => isSub h fuel x b
      | none => c != "Exception" && c != "BaseException" && isSub h fuel "Exception" b)
 
+abbrev Ladders := List (String × List (List String × HAction) × Bool)
+
 /-- the handler a ladder selects for an exception of class `c`: the first clause naming a superclass. -/
-def route (site c : String) : Option HAction :=
-  match Generated.ladders.find? (·.1 == site) with
-  | some (_, hs, _) => (hs.find? fun (cs, _) => cs.any fun b => isSub Generated.hierarchy 6 c b).map (·.2)
+def routeIn (L : Ladders) (H : List (String × List String)) (site c : String) : Option HAction :=
+  match L.find? (·.1 == site) with
+  | some (_, hs, _) => (hs.find? fun (cs, _) => cs.any fun b => isSub H 6 c b).map (·.2)
   | none => none
+
+/-- routing as read from the source under test -/
+def route (site c : String) : Option HAction := routeIn Generated.ladders Generated.hierarchy site c
+
+/-- the `try` statements the flow model transliterates -/
+def sites : List String := expectedLadders.map (·.1)
+
+/-- every class of pypyr.errors the model knows, and representatives of everything else -/
+def knownClasses : List String :=
+  expectedHierarchy.map (·.1) ++ ["Exception", "ValueError", "KeyError", "TypeError", "ModuleNotFoundError",
+                                  "RuntimeError", "SomeOtherError"]
+
+/-- **routing_agrees.** For every modelled `try` statement and every known exception class, the handler
+    the SOURCE's ladder selects (first clause naming a superclass, over the SOURCE's class hierarchy) and
+    what it does with the exception are those of the ladder the model transliterates. -/
+theorem routing_agrees :
+    ∀ site ∈ sites, ∀ c ∈ knownClasses,
+      routeIn Generated.ladders Generated.hierarchy site c = routeIn expectedLadders expectedHierarchy site c := by
+  decide +kernel
+
+/-- the subclass relation among the known classes is the one the model assumes -/
+theorem subclassing_agrees :
+    ∀ c ∈ knownClasses, ∀ b ∈ knownClasses,
+      isSub Generated.hierarchy 6 c b = isSub expectedHierarchy 6 c b := by
+  decide +kernel
+
+/-- which of the modelled `try` statements carry a `finally` -/
+theorem finally_flags_agree :
+    sites.map (fun s => (Generated.ladders.find? (·.1 == s)).map (·.2.2)) =
+    sites.map (fun s => (expectedLadders.find? (·.1 == s)).map (·.2.2)) := by
+  decide +kernel
 
 /-! The routing the model implements, clause by clause (`none` = not caught: propagates). -/
 
